@@ -89,9 +89,9 @@ type simTicker struct {
 
 func newSimTicker() *simTicker { return &simTicker{ch: make(chan cs.VerifTimeoutInfo, 10)} }
 
-func (t *simTicker) Start() error                      { return nil }
-func (t *simTicker) Stop() error                       { return nil }
-func (t *simTicker) SetLogger(log.Logger)              {}
+func (t *simTicker) Start() error                     { return nil }
+func (t *simTicker) Stop() error                      { return nil }
+func (t *simTicker) SetLogger(log.Logger)             {}
 func (t *simTicker) Chan() <-chan cs.VerifTimeoutInfo { return t.ch }
 
 func (t *simTicker) ScheduleTimeout(ti cs.VerifTimeoutInfo) {
@@ -351,20 +351,22 @@ type simNode struct {
 	bstore  *store.BlockStore
 	sstore  sm.Store
 
-	crashAt int // persistence point index at which to crash (0 = not armed)
-	crashed *crashInfo
-	starting bool
-	skew    time.Duration
-	lastHeight int64
-	startFails int
+	crashAt        int // persistence point index at which to crash (0 = not armed)
+	crashed        *crashInfo
+	starting       bool
+	skew           time.Duration
+	lastHeight     int64
+	startFails     int
 	bootHeight     int64
 	sweepCrashAt   int
 	walPoisoned    bool
+	tearIdx        int  // 1 + index of the head file in which a start left a torn tail unrepaired (0: none)
+	markerCut      bool // a later repair cut that head at the old tear, removing the #ENDHEIGHT marker behind it
 	poisonIdx      int
-	leakFloor      int64 // base of the block store when this incarnation booted after an earlier one
-	noMarkerAtBoot bool // this incarnation started although its WAL lacked the marker of the previous height
-	repairedAtBoot bool // this incarnation went through OnStart's WAL repair (which replays the WAL twice)
-	durable    *rsSummary // round state as of the last event that ended with an acknowledged WAL sync
+	leakFloor      int64      // base of the block store when this incarnation booted after an earlier one
+	noMarkerAtBoot bool       // this incarnation started although its WAL lacked the marker of the previous height
+	repairedAtBoot bool       // this incarnation went through OnStart's WAL repair (which replays the WAL twice)
+	durable        *rsSummary // round state as of the last event that ended with an acknowledged WAL sync
 }
 
 func (n *simNode) point(label string) { n.ctl.Point(label) }
@@ -386,9 +388,11 @@ func newSimNode(s *sim, idx int, validator bool) *simNode {
 	return n
 }
 
-func (n *simNode) keyFile() string   { return filepath.Join(n.root, "config", "priv_validator_key.json") }
-func (n *simNode) stateFile() string { return filepath.Join(n.root, "data", "priv_validator_state.json") }
-func (n *simNode) walFile() string   { return filepath.Join(n.root, "data", "cs.wal", "wal") }
+func (n *simNode) keyFile() string { return filepath.Join(n.root, "config", "priv_validator_key.json") }
+func (n *simNode) stateFile() string {
+	return filepath.Join(n.root, "data", "priv_validator_state.json")
+}
+func (n *simNode) walFile() string { return filepath.Join(n.root, "data", "cs.wal", "wal") }
 
 func (n *simNode) config() *cfg.Config {
 	c := cfg.TestConfig()
@@ -597,6 +601,25 @@ func (n *simNode) boot() {
 		if n.noMarkerAtBoot {
 			s.env.Count("probe.boot_without_endheight_marker")
 		}
+		// A start that cannot replay never reads the head to its end, so a torn tail is not
+		// repaired and later records (and markers) are appended behind it. The first repair that
+		// does happen cuts the head at that old tear and takes everything synced since with it.
+		idx := n.wal.groupIdx()
+		if n.noMarkerAtBoot && !n.repairedAtBoot && headHasTear(n.walFile()) {
+			n.tearIdx = idx + 1
+			s.env.Count("probe.unrepaired_tear_left_in_wal_head")
+		}
+		if n.tearIdx != idx+1 {
+			n.tearIdx = 0
+		}
+		if n.noMarkerAtBoot && !storeAhead && n.tearIdx == idx+1 && (n.repairedAtBoot || n.markerCut) {
+			if !n.markerCut {
+				s.env.Count("probe.endheight_marker_cut_by_late_repair")
+			}
+			n.markerCut, n.walPoisoned, n.poisonIdx = true, true, idx
+		} else if !n.noMarkerAtBoot {
+			n.markerCut = false
+		}
 	}
 	if debugLog {
 		rs := n.cs.GetRoundState()
@@ -725,6 +748,23 @@ func (n *simNode) isAlive() bool {
 	n.mu.Lock()
 	defer n.mu.Unlock()
 	return n.alive && n.crashed == nil && n.failure == "" && n.exited == ""
+}
+
+// headHasTear reports whether the WAL head file holds an undecodable record.
+func headHasTear(path string) bool {
+	f, err := os.Open(path)
+	if err != nil {
+		return false
+	}
+	defer f.Close()
+	dec := cs.NewWALDecoder(f)
+	for {
+		if _, err := dec.Decode(); err == io.EOF {
+			return false
+		} else if err != nil {
+			return true
+		}
+	}
 }
 
 func dumpWAL(n *simNode) {
